@@ -1067,3 +1067,19 @@ Theorem missing_argument_is_undefined : forall m r,
 Proof.
   intros m r H. destruct m; try congruence; split; reflexivity.
 Qed.
+
+(* s[i] after 66edf49: every index below the length gives its code unit, U+FFFD included *)
+Theorem index_at_bmp : forall u i, bmp_clean u -> 0 <= i < zlen u ->
+  m_index_at (dec16 u) i = VStr [unit_at u i].
+Proof.
+  intros u i B H. unfold m_index_at. rewrite (dec16_bmp u B), (enc16_bmp u B).
+  destruct (Z.leb_spec 0 i); destruct (Z.ltb_spec i (zlen u)); cbn [andb]; try lia.
+  pose proof (unit_at_in u i H) as I. unfold bmp_clean in B. rewrite Forall_forall in B.
+  destruct (B _ I) as [Hr Hs]. unfold rune_string. rewrite (valid_bmp _ Hr Hs).
+  f_equal. apply enc16_bmp. constructor; [split; assumption|constructor].
+Qed.
+Theorem index_at_beyond : forall s i, i < 0 \/ zlen (enc16 s) <= i -> m_index_at s i = VUndef.
+Proof.
+  intros s i H. unfold m_index_at.
+  destruct (Z.leb_spec 0 i); destruct (Z.ltb_spec i (zlen (enc16 s))); cbn [andb]; try reflexivity; lia.
+Qed.
